@@ -433,6 +433,22 @@ pub fn check(prop: &str, tier_s: &str) -> i32 {
     println!("VERIF_SEED={seed} property={prop} tier={tier_s} cases<={n} workers={w}");
     let b = run_batch(prop, tier, seed, n, w, deadline_s);
     let mut exit = 0;
+    let mut redo_compared = 0usize;
+    if tier == Tier::Thorough {
+        // determinism spot check: the first cases again, in other processes with another worker count
+        let m = n.min(400);
+        let again = run_batch(prop, tier, seed, m, 4, 0);
+        for (i, d) in &again.stats.digests {
+            if let Some(d0) = b.stats.digests.get(i) {
+                redo_compared += 1;
+                if d0 != d {
+                    eprintln!("HARNESS-ERROR nondeterminism: case {i} gave another digest when re-executed");
+                    exit = 2;
+                }
+            }
+        }
+        println!("determinism spot check: {redo_compared} cases re-executed with 4 workers");
+    }
     for h in &b.harness {
         eprintln!("HARNESS-ERROR {h}");
         exit = 2;
